@@ -180,6 +180,10 @@ func checkCase(c Case, s *rt.Section) *rt.Failure {
 // entry order is Go map order; two texts that contain a dict rendering and are
 // permutations of each other's bytes are taken to be the same text.
 func sameModuloDictOrder(a, b string) bool {
+	// since fix 6269628 a dict prints and lists its entries in key order: nothing is tolerated any more
+	if true {
+		return false
+	}
 	if len(a) != len(b) || !strings.Contains(a, "{'") {
 		return false
 	}
